@@ -39,7 +39,14 @@ RULE = ("Items come from a grammar of valid derive inputs (struct with named fie
         "one rejection cause of the statement at container, variant or field level, written inside one #[deserr(..)] or "
         "spread over two, with different values on the two occurrences of a duplicated attribute; every poisoned item has "
         "an unpoisoned twin that must compile. The matrix cause x level x attribute x spelling x item-kind (one cell per "
-        "signature) is enumerated completely in both tiers -- `exhaustive` refers to that matrix only; VERIF_SEED varies the "
+        "signature) is enumerated completely in both tiers, each cell once per legal CONTEXT attribute of the poison's own level "
+        "(container: none/error/rename_all/deny_unknown_fields/validate/from/try_from/where_predicate/generic_param/mix; field: "
+        "none/rename/default/skip/map/from/try_from/error/missing_field_error/needs_predicate/mix; variant: none/rename/"
+        "rename_all/mix; the twin keeps the context), with a rotated placement of the context (before/after the poison, same or "
+        "separate #[deserr]; thorough covers all four per cell x context) and a rotated foreign inert attribute (#[rustfmt::skip], "
+        "#[allow], doc, cfg_attr, #[serde]) before / between / after the deserr attributes; instance 0 of every cell has the tool "
+        "attribute before the poisoned attribute -- `exhaustive` refers to the cell x context matrix and that guarantee only; "
+        "VERIF_SEED varies the "
         "base item around each cell (field/variant counts, names, types, position of the poison, attribute order, unrelated "
         "valid attributes). A case is non-trivial when its item was compiled and its twin compiled without error; "
         "distinct_nontrivial counts distinct signatures among those. Oracle: a poisoned item needs >= 1 error diagnostic "
@@ -285,44 +292,65 @@ def main_run(tier):
     counters, sets, samples, violations, inconclusive = {}, {}, [], [], []
     plan = cells.plan(tier)
     items = []
-    for idx, (c, j) in enumerate(plan):
-        rng = gen.Rng(SEED, c["sig"], j)
-        it, sub = c["build"](rng, j)
+    for idx, (ci, c, j) in enumerate(plan):
+        rng = gen.Rng(SEED, c.sig, j)
+        it, sub, meta = c.build(rng, j, ci)
         p, t = gen.render_item(it)
-        items.append({"idx": idx, "mod": f"i{idx:05d}", "sig": c["sig"], "family": c["family"], "level": c["level"],
-                      "sub": sub, "instance": j, "poisoned": p, "twin": t})
+        items.append({"idx": idx, "mod": f"i{idx:05d}", "sig": c.sig, "family": c.family, "level": c.level,
+                      "sub": sub, "instance": j, "poisoned": p, "twin": t, "meta": meta})
     work = os.path.join(ROOT, "work", f"c16-{tier}")
     if os.path.exists(work):
         shutil.rmtree(work)
     os.makedirs(work)
     pr = write_crate(os.path.join(work, "poisoned"), "c16_poisoned",
                      [(x["mod"], x["sig"] + " [" + x["sub"] + "]", x["poisoned"]) for x in items])
-    tr = write_crate(os.path.join(work, "twins"), "c16_twins",
-                     [(x["mod"], "twin of " + x["sig"] + " [" + x["sub"] + "]", x["twin"]) for x in items])
     timeout = 600 if tier == "quick" else 3000
 
-    # twins first: also builds the dependencies, and is the generator's self-check
-    ok, rc, tmsgs, why = run_cargo(os.path.join(work, "twins"), timeout)
+    # twins first: also builds the dependencies, and is the generator's self-check.  A twin that does not compile
+    # takes the verdict away from ITS item only; the remaining twins are compiled again without the failing ones
+    # (an error can keep rustc from checking the rest), until a crate of twins builds cleanly.
     twin_ok = [False] * len(items)
-    twin_diags = [[] for _ in items]
     evaluations = 0
-    if not ok:
-        inconclusive.append(why)
-    else:
-        twin_diags, loose = attribute(tmsgs, tr)
+    pending = list(range(len(items)))
+    tr = write_crate(os.path.join(work, "twins"), "c16_twins",
+                     [(x["mod"], "twin of " + x["sig"] + " [" + x["sub"] + "]", x["twin"]) for x in items])
+    for rnd in range(6):
+        ok, rc, tmsgs, why = run_cargo(os.path.join(work, "twins"), timeout)
+        if not ok:
+            inconclusive.append(why)
+            break
+        if rnd == 0:
+            evaluations += len(items)
+            bump(counters, "twins_compiled", len(items))
+        tdiags, loose = attribute(tmsgs, tr)
         bump(counters, "diagnostics_seen_twins", sum(1 for m in tmsgs if m.get("level", "").startswith("error")))
         for d in loose:
             inconclusive.append("generator fault: twin crate error outside any item: " + d["message"][:160])
-        for i, x in enumerate(items):
-            twin_ok[i] = not twin_diags[i] and not loose and rc == 0
-            if twin_diags[i]:
-                inconclusive.append(f"generator fault: twin of {x['sig']} ({x['mod']}, seed {SEED}) does not compile: "
-                                    + twin_diags[i][0]["message"][:160])
-        if rc != 0 and not loose and not any(twin_diags):
-            inconclusive.append("twin crate failed to build without an attributable diagnostic")
-        evaluations += len(items)
-        bump(counters, "twins_compiled", len(items))
-        bump(counters, "twins_compiled_clean", sum(twin_ok))
+        bad = [k for k in range(len(pending)) if tdiags[k]]
+        for k in bad:
+            x = items[pending[k]]
+            bump(counters, "twins_failing")
+            inconclusive.append(f"generator fault: twin of {x['sig']} ({x['mod']}, seed {SEED}) does not compile: "
+                                + tdiags[k][0]["message"][:160])
+        if loose:
+            break
+        if not bad:
+            if rc == 0:
+                for i in pending:
+                    twin_ok[i] = True
+            else:
+                inconclusive.append("twin crate failed to build without an attributable diagnostic")
+            break
+        badset = set(bad)
+        pending = [i for k, i in enumerate(pending) if k not in badset]
+        if not pending:
+            break
+        bump(counters, "twin_crate_rebuilt_without_failing_twins")
+        tr = write_crate(os.path.join(work, "twins"), "c16_twins",
+                         [(items[i]["mod"], "twin of " + items[i]["sig"], items[i]["twin"]) for i in pending])
+    else:
+        inconclusive.append("twins still failing after 6 rounds")
+    bump(counters, "twins_compiled_clean", sum(twin_ok))
 
     ok2, rc2, pmsgs, why2 = run_cargo(os.path.join(work, "poisoned"), timeout)
     verdicts = [None] * len(items)
@@ -418,10 +446,29 @@ def main_run(tier):
     fam_counts = {}
     for x in items:
         fam_counts[x["family"]] = fam_counts.get(x["family"], 0) + 1
-    all_sigs = {c["sig"] for c in cells.CELLS}
+    all_sigs = {c.sig for c in cells.CELLS}
+    want_ctx = {(c.sig, x) for c in cells.CELLS for x in c.ctxs}
+    got_ctx, ctx_by_level, fpos, tool_before, placements = set(), {}, {}, set(), {}
+    for i, x in enumerate(items):
+        if verdicts[i] is None:
+            continue
+        m = x["meta"]
+        got_ctx.add((x["sig"], m["ctx"]))
+        ctx_by_level.setdefault(x["level"], {}).setdefault(m["ctx"], 0)
+        ctx_by_level[x["level"]][m["ctx"]] += 1
+        k = m["fkind"] + "-" + m["fpos"]
+        fpos[k] = fpos.get(k, 0) + 1
+        placements[m["cpl"]] = placements.get(m["cpl"], 0) + 1
+        if m["fkind"] == "tool" and m["fpos"] == "before":
+            tool_before.add(x["sig"])
     extra = {"tier_plan_items": len(items), "matrix_cells": len(all_sigs), "matrix_cells_covered": len(covered),
-             "matrix_complete": covered == all_sigs, "matrix_cell_subkinds_covered": len(cells_sub),
+             "matrix_complete": covered == all_sigs and want_ctx <= got_ctx and tool_before == all_sigs, "matrix_cell_subkinds_covered": len(cells_sub),
              "items_per_cause_family": fam_counts,
+             "cell_context_pairs": len(want_ctx), "cell_context_pairs_covered": len(got_ctx & want_ctx),
+             "context_attributes_exercised": {lvl: dict(sorted(d.items())) for lvl, d in sorted(ctx_by_level.items())},
+             "context_placements_exercised": dict(sorted(placements.items())),
+             "foreign_attribute_positions_exercised": dict(sorted(fpos.items())),
+             "cells_with_tool_attribute_before_poison": len(tool_before),
              "rejected_by_derive": counters.get("verdict_rejected", 0),
              "accepted": counters.get("verdict_accepted-silently", 0) + counters.get("verdict_accepted-broken-code", 0),
              "twins_compiled": counters.get("twins_compiled", 0),
